@@ -551,6 +551,10 @@ func classify(pa *Path) *ReqPath {
 				op = "set"
 			}
 			rp.Writes = append(rp.Writes, HdrWrite{Op: op, Key: keyOf(e.Args[1]), Val: e.Args[2], Tag: valTag(e.Args[2]), At: e.At, NAtoms: e.NAtoms, Eff: i})
+		case e.Kind == "mapset" && isRespHeaderMap(e.Args[0]) && e.Args[2].Op == "lit" && len(e.Args[2].Args) == 1:
+			// hdrs[k] = []string{v} with a fresh one-element slice is what
+			// Header.Set(k, v) does (for a canonical constant key)
+			rp.Writes = append(rp.Writes, HdrWrite{Op: "set", Key: keyOf(e.Args[1]), Val: e.Args[2].Args[0], Tag: valTag(e.Args[2].Args[0]), At: e.At, NAtoms: e.NAtoms, Eff: i})
 		case e.Kind == "mapset" && isRespHeaderMap(e.Args[0]):
 			op := "assign"
 			tag := valTag(e.Args[2])
